@@ -113,8 +113,9 @@ Definition to_listing (cm : code_map) (sm : source_map) (segs : segments) (n : n
 (* the guard at the head of to_listing: `if !(1..=MAX_BYTES_PER_LINE).contains(&num_bytes_per_line) { return Err(..) }`
    (None = that diagnostic); with it the `chunks(0)` panic of rows_of_data is unreachable from to_listing *)
 Definition max_bytes_per_line : nat := 256.
+Definition width_accepted (n : nat) : bool := ((1 <=? n) && (n <=? max_bytes_per_line))%nat.
 Definition to_listing_checked (cm : code_map) (sm : source_map) (segs : segments) (n : nat) : option (res (list (N * list row))) :=
-  if ((1 <=? n) && (n <=? max_bytes_per_line))%nat then Some (to_listing cm sm segs n) else None.
+  if width_accepted n then Some (to_listing cm sm segs n) else None.
 
 (* ------------------------------------------------------------------ the text of a listing (bytes, UTF-8)
    format!("{:>5}", line_idx + 1), format!("{:5}", ""), format!("{:width$}", .., width = n * 3), format!("{:04X}:", pc),
